@@ -34,11 +34,11 @@ Proof. exact enc_message_spec. Qed.
    by C03's theorem (T_enc + reference round trip + T_dec). The only identifications are the by-design ones of
    Schema/Norm.v (zero time.Time behind a pointer / in a slice; nil element of a repeated message). *)
 Theorem C08_presence_round_trip : forall s progs fuel idx fs un m,
-  gen_all s = GOk progs -> TEnc.wf_schema_enc s = true -> RoundTrip.rt_applies s = true -> nth_error s idx = Some m ->
+  gen_all s = GOk progs -> TEnc.wf_schema_enc s = true -> RoundTrip.rt_applies_at s idx = true -> nth_error s idx = Some m ->
   EncSpec.msg_ok fuel progs idx (Some (fs, un)) = true -> RoundTrip.rt_ok fuel s idx fs un = true ->
   exists data, pico_marshal fuel progs idx (fs, un) = Ok data /\
                pico_unmarshal progs idx data (zero_fields s m, []) = (None, (Norm.norm_fields fuel s idx fs, un)).
-Proof. exact RoundTrip.marshal_unmarshal. Qed.
+Proof. exact RoundTrip.marshal_unmarshal_at. Qed.
 
 Example C08_nonvacuous : enc_single KString true 2 (VBytes []) [] = [18; 0] /\ spec_ld 3 [] = [26; 0].
 Proof. split; vm_compute; reflexivity. Qed.
